@@ -190,7 +190,16 @@ def power_method_opnorm(op, xstart=None, maxiter=100, rtol=1e-05, atol=1e-08,
         raise ValueError('`maxiter` must be positive, got {}'
                          ''.format(maxiter_in))
 
-    if op.adjoint is op:
+    try:
+        op_adjoint = op.adjoint
+    except NotImplementedError:
+        # No adjoint (e.g. a nonlinear operator): only the plain iteration
+        # is possible, which requires that domain and range coincide
+        if op.domain != op.range:
+            raise
+        op_adjoint = op
+
+    if op_adjoint is op:
         use_normal = False
         ncalls = maxiter
     else:
